@@ -43,6 +43,7 @@ type propSpec struct {
 	Bounds        []string
 	OutsideBounds []string
 	Assumptions   []string
+	CLI           bool // harnesses run the command's main(): initialise it, build the real binary for replay
 }
 
 type job struct {
@@ -135,6 +136,12 @@ func runCheck(args []string) int {
 		fmt.Println("ERROR:", err)
 		return 2
 	}
+	if spec.CLI {
+		if err := disc.InitCLI(); err != nil {
+			fmt.Println("ERROR:", err)
+			return 2
+		}
+	}
 	inconclusive := []string{}
 	for _, h := range ts.Harnesses {
 		if *only != "" && !strings.Contains(h.Func, *only) {
@@ -214,6 +221,9 @@ func runCheck(args []string) int {
 			if err == nil {
 				err = in.InitPackages(zz)
 			}
+			if err == nil && spec.CLI {
+				err = in.InitCLI()
+			}
 			if err != nil {
 				werrs[w] = err
 				for range jobCh {
@@ -271,6 +281,7 @@ func runCheck(args []string) int {
 		total.AssertQueries += s.AssertQueries
 		total.DigitBoundPruned += s.DigitBoundPruned
 		total.AtomLinks += s.AtomLinks
+		total.TableAbstractions += s.TableAbstractions
 		for f := range s.Funcs {
 			funcs[f] = true
 		}
@@ -421,6 +432,9 @@ func runCheck(args []string) int {
 		for f := range funcs {
 			if strings.Contains(f, "HobbyOSs/gosk") && !strings.Contains(f, "zzverif") && !strings.Contains(f, "zz_verif") {
 				fl = append(fl, strings.TrimPrefix(f, "github.com/HobbyOSs/gosk/"))
+			} else if spec.CLI && (strings.Contains(f, "golang.org/x/text/") || strings.Contains(f, "golang.org/x/net/html/charset") || strings.HasPrefix(f, "flag.") || strings.HasPrefix(f, "(*flag.")) {
+				// the library code the command line runs through, interpreted from SSA like gosk's own
+				fl = append(fl, f)
 			}
 		}
 		sort.Strings(fl)
@@ -471,6 +485,7 @@ func runCheck(args []string) int {
 				"inconclusive":                  len(inconclusive),
 				"known_findings_witnessed":      sortedKeysB(known),
 				"digit_bound_pruned_paths":      total.DigitBoundPruned,
+				"table_reads_abstracted":        total.TableAbstractions,
 				"encoding":                      "go/ssa of /repo working tree rebuilt this run (x/tools v0.29.0, InstantiateGenerics), harness overlay tag verif",
 				"load_s":                        prog.LoadS,
 				"ssa_build_s":                   prog.BuildS,
@@ -487,7 +502,7 @@ func runCheck(args []string) int {
 var baseAssumptions = []string{
 	"go/packages + go/ssa (x/tools v0.29.0) build the SSA of /repo's working tree faithfully",
 	"engine instruction semantics for go/ssa (wrap-around bit-vector arithmetic at the Go width); cross-checked on sampled paths of every run by executing the natively compiled harness under the path's model and comparing the noted bytes",
-	"z3 4.8.12 answers; any (error line or unknown makes the run inconclusive (exit 2), never a pass",
+	"solver answers (z3 5.1.0 as z3-new when present, else z3 4.8.12); any (error line or unknown makes the run inconclusive (exit 2), never a pass",
 	"library models: fmt.Sprintf/Errorf verbs %s %d %v %x %q %T, strconv Itoa/FormatInt/Atoi/ParseInt/ParseUint (decimal text of a symbolic integer is a digit string whose value is the integer; proven thresholds fork on digit count), strings/bytes leaf functions, text/template for literal text with {{.name}} actions, os file API as an in-memory file system, sync as single-threaded no-ops; log output is not formatted (format strings recorded as diagnostics)",
 	"instruction table: the embedded JSON is decoded natively and injected as interpreter values following the json tags of gosk's own types; gosk's Go code that post-processes it (fallback forms) is executed symbolically like everything else",
 	"vrt.Once: a concrete, deterministic computation (parsing a literal-free template) is run once per cell and reused across that cell's paths",
@@ -564,7 +579,23 @@ func buildReplay(repo, ovroot, scratch string) (string, error) {
 	if err != nil {
 		return "", fmt.Errorf("%v: %s", err, out)
 	}
+	// the real command, untouched by the overlay, for harnesses that drive
+	// the command line (vrt.RunCLI)
+	cmd = exec.Command("go", "build", "-o", filepath.Join(scratch, "gosk"), "./cmd/gosk")
+	cmd.Dir = repo
+	cmd.Env = append(os.Environ(), "GOFLAGS=-mod=mod", "GOPROXY=off", "GOSUMDB=off", "GOTOOLCHAIN=local")
+	if out, err := cmd.CombinedOutput(); err != nil {
+		return "", fmt.Errorf("building cmd/gosk: %v: %s", err, out)
+	}
 	return bin, nil
+}
+
+// nativeTmp is the temp directory native harness runs use: it lives inside the
+// scratch directory of the replay binary and is removed with it.
+func nativeTmp(bin string) string {
+	d := filepath.Join(filepath.Dir(bin), "tmp")
+	os.MkdirAll(d, 0o755)
+	return d
 }
 
 // runReplay runs the natively compiled harness under the model and reports
@@ -572,7 +603,7 @@ func buildReplay(repo, ovroot, scratch string) (string, error) {
 func runReplay(bin, repo, harness, path string, v *gosym.Violation) (bool, string) {
 	cmd := exec.Command(bin, "-test.run", "^TestVerifReplay$", "-test.v", "-test.timeout", "120s")
 	cmd.Dir = filepath.Join(repo, "internal")
-	cmd.Env = append(os.Environ(), "VERIF_MODEL="+path, "VERIF_HARNESS="+shortHarness(harness))
+	cmd.Env = append(os.Environ(), "VERIF_MODEL="+path, "VERIF_HARNESS="+shortHarness(harness), "TMPDIR="+nativeTmp(bin), "VERIF_GOSK="+filepath.Join(filepath.Dir(bin), "gosk"))
 	out, err := cmd.CombinedOutput()
 	code := 0
 	if ee, ok := err.(*exec.ExitError); ok {
@@ -628,7 +659,7 @@ func validateAll(bin, repo, scratch string, vs []*gosym.ValidationSample, par in
 			os.WriteFile(mf, b, 0644)
 			cmd := exec.Command(bin, "-test.run", "^TestVerifReplay$", "-test.v", "-test.timeout", "120s")
 			cmd.Dir = filepath.Join(repo, "internal")
-			cmd.Env = append(os.Environ(), "VERIF_MODEL="+mf, "VERIF_HARNESS="+rf.Harness)
+			cmd.Env = append(os.Environ(), "VERIF_MODEL="+mf, "VERIF_HARNESS="+rf.Harness, "TMPDIR="+nativeTmp(bin), "VERIF_GOSK="+filepath.Join(filepath.Dir(bin), "gosk"))
 			out, _ := cmd.CombinedOutput()
 			s := string(out)
 			native := map[string]string{}
@@ -698,7 +729,7 @@ func runReplayCmd(args []string) int {
 	}
 	cmd := exec.Command(bin, "-test.run", "^TestVerifReplay$", "-test.v")
 	cmd.Dir = filepath.Join(*repo, "internal")
-	cmd.Env = append(os.Environ(), "VERIF_MODEL="+rpath, "VERIF_HARNESS="+rf.Harness)
+	cmd.Env = append(os.Environ(), "VERIF_MODEL="+rpath, "VERIF_HARNESS="+rf.Harness, "TMPDIR="+nativeTmp(bin), "VERIF_GOSK="+filepath.Join(filepath.Dir(bin), "gosk"))
 	out, _ := cmd.CombinedOutput()
 	fmt.Printf("replay of %s (%s / %s)\nmodel=%v chooses=%v notes=%v\n--- native output ---\n%s\n", fs.Arg(0), rf.Harness, rf.AssertID, rf.Model, rf.Chooses, rf.Notes, out)
 	if strings.Contains(string(out), "VERIF-ASSERT-FAIL") || strings.Contains(string(out), "panic:") {
